@@ -10,10 +10,11 @@ import copy
 
 from vlib import gen_doc
 
-ELE_KINDS = ['too_long', 'too_short', 'bad_code', 'bad_char', 'bad_date', 'bad_time', 'bad_qualified_datetime', 'missing_required', 'notused_filled',
+ELE_KINDS = ['too_long', 'too_short', 'bad_code', 'bad_char', 'bad_date', 'bad_time', 'bad_qualified_datetime', 'bad_pattern', 'missing_required', 'notused_filled',
              'too_many_elements', 'too_many_components', 'syntax']
 SEG_KINDS = ['unknown_segment', 'out_of_place', 'missing_segment', 'max_use', 'loop_repeat']
 ALL_KINDS = ELE_KINDS + SEG_KINDS
+RARE_KINDS = ['bad_pattern']      # applicable in two maps only (elements with a <regex>): driven by directed bases, not required of every run's random part
 ENVELOPE = ('ISA', 'GS', 'ST', 'SE', 'GE', 'IEA')
 
 
@@ -325,6 +326,27 @@ class _K(object):
         d = clone(doc)
         set_value(d.recs[i], ep, sp, v)
         return _mk(d, 'bad_time', i, ep, sp, ['9'], v)
+
+    @staticmethod
+    def bad_pattern(rng, doc):
+        """an element that carries a <regex> (nine-digit identifiers in the 5010 837 maps) with a value of legal length and characters that the pattern refuses"""
+        import re as _re
+
+        def pred(i, node, ep, sp, cur):
+            return _present(cur) and node.regex and node.usage != 'N' and _plain_site(i, node, ep, sp, cur, doc)
+        s_ = _sites(rng, doc, pred)
+        if not s_:
+            return None
+        i, node, ep, sp, cur = s_
+        dt, mn, mx = gen_doc.dtype_of(node)
+        pool = [v for v in ['12345678A', '1234', '123-45-6789', 'ABCDEFGHI', '12345 789', '0'] if mn <= len(v) <= mx and not _re.search(node.regex, v, _re.S)
+                and v not in (node.codes or ())]
+        if not pool:
+            return None
+        v = rng.choice(pool)
+        d = clone(doc)
+        set_value(d.recs[i], ep, sp, v)
+        return _mk(d, 'bad_pattern', i, ep, sp, ['7'], v)
 
     @staticmethod
     def bad_qualified_datetime(rng, doc):
